@@ -405,6 +405,38 @@ def run(ctx):
                        'reproduce the list)' % (' & '.join(bad[0].cond_src())[:200] if bad else '', bad[1] if bad else ''),
                        construct='split_at_node: placement')
 
+    # ---- R18l: the walker's node-list factory needs its parsing_state keyword
+    ctx.rule('R18l', 'every call of a node-list factory that may be the walker\'s make_nodelist() (a local bound to '
+                     '<walker>.make_nodelist) passes parsing_state=, which that method requires (kwargs.pop without '
+                     'default)', 3)
+    wm_ = repo.mod('pylatexenc.latexwalker._walker')
+    mk_ = wm_.methods('LatexWalker').get('make_nodelist')
+    required_kw = set()
+    if mk_ is not None:
+        for c_ in iter_own(mk_):
+            if isinstance(c_, ast.Call) and call_name(c_) == 'pop' and call_recv(c_) is not None and \
+                    unparse(call_recv(c_)) == (mk_.args.kwarg.arg if mk_.args.kwarg else 'kwargs') and \
+                    len(c_.args) == 1 and isinstance(c_.args[0], ast.Constant):
+                required_kw.add(c_.args[0].value)
+    if not required_kw:
+        ctx.unknown('R18l', wm_, mk_, 'required keywords of LatexWalker.make_nodelist not found', construct='make_nodelist')
+    else:
+        for q_, f_ in sorted(m.functions.items()):
+            aliases = {t_.id for st_ in ast.walk(f_) if isinstance(st_, ast.Assign) for t_ in st_.targets
+                       if isinstance(t_, ast.Name) and isinstance(st_.value, ast.Attribute) and st_.value.attr == 'make_nodelist'}
+            if not aliases:
+                continue
+            for c_ in ast.walk(f_):
+                if isinstance(c_, ast.Call) and isinstance(c_.func, ast.Name) and c_.func.id in aliases:
+                    given = {k.arg for k in c_.keywords}
+                    ok = required_kw <= given or None in given
+                    ctx.decide('R18l', ok, m, c_, '%s: %s passes %s' % (q_, short(c_, 50), sorted(required_kw)),
+                               '%s calls the node-list factory without %s (%s): when the list came from a LatexWalker the '
+                               'factory is its make_nodelist(), which pops that keyword without a default -- KeyError; '
+                               'hand-built lists use the fallback lambda and work' % (
+                                   q_, sorted(required_kw - given), short(c_, 60)),
+                               construct='%s: %s' % (q_, short(c_, 50)))
+
     return 'other', (
         'Decides per site that chunk text and chunk position use the same bounds, that only '
         'top-level chars nodes are searched, that the key-value result is type-consistent across '
